@@ -161,5 +161,10 @@ SPEC = dict(
              state=dict(var="hs", ty=Nom("enchamstate", "enchamstate"), ctor="mkHam",
                         fields=[("_hamiltonian", "hs_ham", Opt(OP)), ("_hamiltonian_prepared", "hs_prepared", BOOL)]),
              returns=UNIT),
+        dict(py="JSSPDomainWallHamiltonianEncoder._prepare_hamiltonian", source=ENC_SRC, gen="Enc_ham_viability_terms",
+             fragment=dict(path=[], after="AnnAssign=variable_viability_terms", count=1, outputs=["variable_viability_terms"],
+                           temps=["job", "operation", "viability_term", "max_constraints_per_variable", "start_time"]),
+             params=[("variable_viability_terms", "variable_viability_terms", List(OP))],
+             extra_params=ENC_EXTRA, self_attrs=ENC_SELF, state=ENC_STATE, returns=List(OP)),
     ],
 )
